@@ -1,7 +1,7 @@
 (* Pinned statements of C08 (generated once by tools/mkpins.py from coq/props/C08.v, then committed). *)
 From DV Require Import Model.Base Model.NameCheck Model.Parser Model.Header Model.Readers Model.Uncompress
   Model.Mutate Model.Compress Model.Renamer Spec.PacketSpec Spec.RecordSpec Spec.PlainSpec Proofs.Hoare Proofs.HeaderBits Proofs.InsertLemmas Proofs.EdnsPlain Proofs.WalkSkip
-  Proofs.PlainWf Proofs.ViewAfter Proofs.InsertSpec Proofs.HeaderInv Proofs.CursorHist Proofs.DecompressFirst Proofs.FreshHist props.C08.
+  Proofs.PlainWf Proofs.ViewAfter Proofs.InsertSpec Proofs.HeaderInv Proofs.CursorHist Proofs.DecompressFirst Proofs.FreshHist Proofs.DeleteInv Proofs.SetNameInv Proofs.WalkInv Proofs.RenameCursor props.C08.
 Check (C08_decompression_keeps_edns_summary : forall p v q v',
   bytes_ok p -> parse p = Ok v -> uncompress p = Ok q -> parse q = Ok v' ->
   pp_edns_count v' = pp_edns_count v /\ pp_ext_rcode v' = pp_ext_rcode v /\ pp_edns_version v' = pp_edns_version v /\
@@ -94,3 +94,22 @@ Check (C08_histories_from_parse_any_first : forall p v it o ops s1 s', bytes_ok 
   hop3_ok_at v o -> run_hop3 o (v, it) = (s1, Ok tt) -> ok_along ops s1 -> run_hops3 ops s1 = (s', Ok tt) ->
   dinv (fst s') /\ snd s' = it /\ is_response (pp_packet (fst s'))).
 Print Assumptions C08_histories_from_parse_any_first.
+Check (C08_cursor_after_rename : forall nm v sec l1 r x l2 n s' qls qt lA lN lR,
+  dinv v -> bytes_ok nm -> reading (pp_packet v) qls qt lA lN lR -> sec = SAnswer \/ sec = SNameServers \/ sec = SAdditional ->
+  sec_list sec lA lN lR = l1 ++ (r, x) :: l2 -> is_opt r = false ->
+  m_set_raw_name nm (v, cur_on sec r n) = (s', Ok tt) ->
+  exists lA' lN' lR' l1' r' l2' ls,
+    dinv (fst s') /\ reading (pp_packet (fst s')) qls qt lA' lN' lR' /\ sec_list sec lA' lN' lR' = l1' ++ (r', x) :: l2' /\
+    map unpl l1' = map unpl l1 /\ map unpl l2' = map unpl l2 /\ unpl (r', x) = unpl (with_labels (r, x) ls) /\ name_ok ls /\
+    rv_off r' = rv_off r /\ snd s' = cur_on sec r' n).
+Print Assumptions C08_cursor_after_rename.
+Check (C08_next_after_rename : forall nm v sec l1 r x l2 s' qls qt lA lN lR,
+  dinv v -> bytes_ok nm -> reading (pp_packet v) qls qt lA lN lR -> sec = SAnswer \/ sec = SNameServers \/ sec = SAdditional ->
+  sec_list sec lA lN lR = l1 ++ (r, x) :: l2 -> is_opt r = false ->
+  m_set_raw_name nm (v, cur_on sec r (length l2)) = (s', Ok tt) ->
+  exists lA' lN' lR' l1' r' l2',
+    reading (pp_packet (fst s')) qls qt lA' lN' lR' /\ sec_list sec lA' lN' lR' = l1' ++ (r', x) :: l2' /\
+    map unpl l1' = map unpl l1 /\ map unpl l2' = map unpl l2 /\
+    r_next_including_opt (fst s') (snd s') =
+      Ok (match l2' with [] => None | rx2 :: l3 => Some (cur_on sec (fst rx2) (length l3)) end)).
+Print Assumptions C08_next_after_rename.
